@@ -1,3 +1,4 @@
+import logging
 from collections import ChainMap
 from enum import Enum
 from functools import cached_property
@@ -62,12 +63,22 @@ class Workspace:
 
     @cached_property
     def alt_workspaces(self):
+        """The settings of the alternative workspaces (`alt_workspaces` lists
+        their identifiers)"""
+        by_id = {ws.id: ws for ws in (getattr(self.settings, "workspaces", None) or [])}
+        found = []
         for ws_id in self.workspace_settings.alt_workspaces:
-            yield self.settings.workspaces[ws_id]
+            if ws_id in by_id:
+                found.append(by_id[ws_id])
+            else:
+                logging.getLogger("xpm").warning(
+                    "Alternative workspace %s is not defined in the settings", ws_id
+                )
+        return found
 
     @property
     def alt_workdirs(self):
-        yield from map(lambda ws: ws.path, self.workspace_settings.alt_workspaces)
+        yield from (ws.path for ws in self.alt_workspaces)
 
     @property
     def connector(self):
